@@ -464,10 +464,10 @@ CLASS_CONFIGS = {
                               SubNames=set(), MaxItems=3, MaxSubItems=1), 16, 4),
         ('items11', '1.1', dict(ItemNames=ALL_ITEMS, ItemNames3={"a", "AS", "i", "I", "c", "C", "D", "d"},
                                 SubNames=set(), MaxItems=3, MaxSubItems=1), 16, 4),
-        ('sub', '1.0', dict(ItemNames={"a", "5", "NL", "AS", "HY", "a-b", "d", "D", "S", "W"},
+        ('sub', '1.0', dict(ItemNames={"a", "5", "NL", "AS", "HY", "a-b", "5-CARET", "d", "D", "s"},
                             ItemNames3=set(), SubNames={"a", "5", "d", "D", "S", "W", "a-b"},
                             MaxItems=2, MaxSubItems=2), 64, 8),
-        ('sub11', '1.1', dict(ItemNames={"a", "AS", "5", "d", "D", "I", "C", "s"}, ItemNames3=set(),
+        ('sub11', '1.1', dict(ItemNames={"a", "AS", "5", "d", "D", "C", "s"}, ItemNames3=set(),
                               SubNames={"a", "AS", "D", "i", "C"}, MaxItems=2, MaxSubItems=2), 32, 8),
     ],
 }
